@@ -429,6 +429,7 @@ def run(repo, rep, tier):
     # keybindings from same-named properties)
     from .c04 import path_attached_after_properties
     path_attached_after_properties(repo, rep, 'C01.R17')
+    converted_values_are_used(repo, rep)
     # the datetime writer str(CIMDateTime) is part of every VALUE written for
     # a datetime: same exact-arithmetic rule as C06.R8
     from .c06 import _r8_exact_fields
@@ -872,6 +873,55 @@ def _position_by_index(repo, rep):
     r14.ob(loops >= 1, 'loops-scanned', {'loops': loops})
     if loops < 1:
         raise AnalysisError('C01.R14: only %d loops scanned' % loops)
+
+
+def converted_values_are_used(repo, rep):
+    """C01.R18: in the modules that read and write the wire format a local
+    that receives the result of a call is read again.  The typed value the
+    reader builds (`type_obj(value)`) must be what it returns; a rename
+    that leaves `return value` behind still validates the text but hands
+    back the plain Python number, so a Uint8 key comes back as int and the
+    re-encoded XML loses its TYPE attribute.  (Names starting with `_` or
+    `unused` are exempt - the marked placeholders of tuple unpacking.)"""
+    r18 = rep.rule('C01.R18', 'no result of a call is bound to a local that '
+                   'is never read (wire-format modules)')
+    nfun = 0
+    for rel in (TP, 'pywbem/_tupletree.py', 'pywbem/_cim_types.py',
+                'pywbem/_cim_xml.py'):
+        for f in repo.module(rel).all_funcs():
+            nfun += 1
+            stores, loads = {}, set()
+            for n in walk_no_nested(f.node):
+                if isinstance(n, ast.Name):
+                    if isinstance(n.ctx, ast.Store):
+                        stores.setdefault(n.id, []).append(n)
+                    else:
+                        loads.add(n.id)
+            # names read by nested functions count as read
+            for g in ast.walk(f.node):
+                if isinstance(g, (ast.FunctionDef, ast.Lambda)) and \
+                        g is not f.node:
+                    loads |= {x.id for x in ast.walk(g)
+                              if isinstance(x, ast.Name)}
+            for a in walk_no_nested(f.node):
+                if not (isinstance(a, ast.Assign) and len(a.targets) == 1 and
+                        isinstance(a.targets[0], ast.Name) and
+                        isinstance(a.value, ast.Call)):
+                    continue
+                nm = a.targets[0].id
+                if nm.startswith(('_', 'unused')) or nm in loads:
+                    continue
+                r18.ob(False, '%s|%s' % (f.qualname, nm))
+                rep.finding(r18, f.qualname, norm(a, 60), 'result-dropped',
+                            rel, a.lineno,
+                            'the result of %s is bound to %s, which is never '
+                            'read: the converted / constructed value is '
+                            'dropped and something else is used in its place'
+                            % (norm(a.value, 40), nm))
+    r18.sites += 1
+    r18.ob(nfun > 150, 'functions-scanned', {'functions': nfun})
+    if nfun < 150:
+        raise AnalysisError('C01.R18: only %d functions scanned' % nfun)
 
 
 def nested_objects_encoded_completely(repo, rep):
